@@ -43,6 +43,9 @@ pub enum FileMode {
     Absent,
     /// the path is a real directory (`/`): the kernel's own EISDIR
     RealDir,
+    /// a real file in the real file system (no faults can be layered on it): an anchor that memfd-backed
+    /// files behave like ordinary ones
+    RealFs,
     /// no planned path at all
     None,
 }
@@ -62,6 +65,8 @@ pub struct Case {
     pub seed: u64,
     pub events: Vec<(String, String, i64)>,
     pub dchunk: Vec<(String, i64)>,
+    /// extra environment variables of the process (the output must not depend on them)
+    pub env: Vec<(String, String)>,
     pub note: String,
 }
 
@@ -71,7 +76,8 @@ impl Case {
             "target": self.target, "channel": self.channel, "argv": self.argv, "cfg": self.cfg.encode(),
             "arg_lines": self.arg_lines, "stdin_hex": hex(&self.stdin), "stdin_text": String::from_utf8_lossy(&self.stdin[..self.stdin.len().min(200)]),
             "path": self.path, "file_hex": hex(&self.file), "file_text": String::from_utf8_lossy(&self.file[..self.file.len().min(200)]),
-            "file_mode": match self.file_mode { FileMode::Memfd => "memfd", FileMode::Absent => "absent", FileMode::RealDir => "realdir", FileMode::None => "none" },
+            "file_mode": match self.file_mode { FileMode::Memfd => "memfd", FileMode::Absent => "absent", FileMode::RealDir => "realdir", FileMode::RealFs => "realfs", FileMode::None => "none" },
+            "env": self.env.iter().map(|(k, v)| json!([k, v])).collect::<Vec<_>>(),
             "tty": self.tty, "seed": self.seed.to_string(),
             "events": self.events.iter().map(|(c, k, a)| json!([c, k, a])).collect::<Vec<_>>(),
             "dchunk": self.dchunk.iter().map(|(c, n)| json!([c, n])).collect::<Vec<_>>(),
@@ -99,6 +105,7 @@ impl Case {
                 "memfd" => FileMode::Memfd,
                 "absent" => FileMode::Absent,
                 "realdir" => FileMode::RealDir,
+                "realfs" => FileMode::RealFs,
                 _ => FileMode::None,
             },
             tty: v.get("tty").and_then(|x| x.as_u64()).unwrap_or(0) as u8,
@@ -115,6 +122,15 @@ impl Case {
                 .map(|a| {
                     a.iter()
                         .filter_map(|e| Some((e.get(0)?.as_str()?.to_string(), e.get(1)?.as_i64()?)))
+                        .collect()
+                })
+                .unwrap_or_default(),
+            env: v
+                .get("env")
+                .and_then(|x| x.as_array())
+                .map(|a| {
+                    a.iter()
+                        .filter_map(|e| Some((e.get(0)?.as_str()?.to_string(), e.get(1)?.as_str()?.to_string())))
                         .collect()
                 })
                 .unwrap_or_default(),
@@ -139,7 +155,7 @@ impl Case {
                 p.push_str(&format!("path {}\n", hex(self.path.as_bytes())));
                 p.push_str(&format!("real {}\n", hex(b"/")));
             }
-            FileMode::None => {}
+            FileMode::None | FileMode::RealFs => {}
         }
         for (c, n) in &self.dchunk {
             p.push_str(&format!("dchunk {} {}\n", c, n));
@@ -198,6 +214,7 @@ pub fn run_case(case: &Case, bins: &Binaries, timeout_s: u64) -> Result<Observed
     let mut child = Command::new(exe)
         .args(&case.argv)
         .env_clear()
+        .envs(case.env.iter().map(|(k, v)| (k.clone(), v.clone())))
         .env("LD_PRELOAD", &bins.shim)
         .env("SIMENV_ACTIVE", "1")
         .stdin(Stdio::piped())
@@ -432,7 +449,7 @@ pub fn expectation(case: &Case, o: &Observed) -> Expect {
         "args" => None,
         "stdin" => Some(stdin_eff.clone()),
         "file" | "probe" => match case.file_mode {
-            FileMode::Memfd => Some(file_eff.clone()),
+            FileMode::Memfd | FileMode::RealFs => Some(file_eff.clone()),
             FileMode::Absent => return Expect::Unusable("file does not exist".into()),
             FileMode::RealDir => return Expect::Unusable("path is a directory".into()),
             FileMode::None => return Expect::NotJudged("no planned file".into()),
@@ -448,7 +465,7 @@ pub fn expectation(case: &Case, o: &Observed) -> Expect {
                 return Expect::Unusable(format!("stdin names {:?}, not the planned file", p.trim()));
             }
             match case.file_mode {
-                FileMode::Memfd => Some(file_eff.clone()),
+                FileMode::Memfd | FileMode::RealFs => Some(file_eff.clone()),
                 FileMode::Absent => return Expect::Unusable("file does not exist".into()),
                 FileMode::RealDir => return Expect::Unusable("path is a directory".into()),
                 FileMode::None => return Expect::NotJudged("no planned file".into()),
@@ -485,6 +502,24 @@ pub fn expectation(case: &Case, o: &Observed) -> Expect {
         }
         Outcome::Panic(m) => Expect::LibraryPanics(m),
     }
+}
+
+fn strip_ansi(s: &str) -> String {
+    let mut out = String::new();
+    let mut chars = s.chars().peekable();
+    while let Some(c) = chars.next() {
+        if c == '\u{1b}' && chars.peek() == Some(&'[') {
+            chars.next();
+            for d in chars.by_ref() {
+                if d.is_ascii_alphabetic() {
+                    break;
+                }
+            }
+        } else {
+            out.push(c);
+        }
+    }
+    out
 }
 
 #[derive(Clone, Debug)]
@@ -606,7 +641,7 @@ pub fn judge(case: &Case, o: &Observed) -> Verdict {
         Expect::ClapError => match clean_rejection(case, o) {
             Ok(()) => {
                 let err_text = String::from_utf8_lossy(&o.stderr_accepted).to_string();
-                if err_text.starts_with("error:") {
+                if strip_ansi(&err_text).starts_with("error:") {
                     Verdict { class: None, detail: String::new(), expect }
                 } else {
                     v("usage_error_format", format!("stderr {:?}", err_text), &expect)
